@@ -31,16 +31,16 @@ PROPS = {
     "C04": {"level": "exploration", "arms": [A("par-free", 30000, 1500000), A("par-cutoff", 40000, 2000000), A("par-flaky", 20000, 800000), A("par-threads", 20000, 800000), A("par-threads-cutoff", 20000, 800000)],
             "probes": ["probe:multi_wake", "probe:abort_with_peer_parked", "probe:abort_with_peer_processing", "fault:thread_count_increase", "fault:cutoff_fired", "probe:worker_parked_and_woken"],
             "rule": RULE_SOLVER + "; violation classes: deadlock (no enabled worker while one is parked), step-bound, worker panic, premature completion"},
-    "C05": {"level": "exploration", "arms": [A("par-cutoff", 60000, 3000000), A("par-threads-cutoff", 10000, 400000), A("seq-sweep", 6000, 250000)],
+    "C05": {"level": "exploration", "arms": [A("par-cutoff", 60000, 3000000), A("par-threads-cutoff", 10000, 400000), A("seq-sweep", 6000, 250000), A("seq-sweep-nodup", 3000, 200000)],
             "probes": ["fault:cutoff_fired", "probe:abort_with_peer_parked", "probe:abort_with_peer_processing", "probe:ub_strictly_decreased_between_consecutive_k", "sweep_executions"],
             "rule": RULE_SOLVER + "; sequential arm: for each sampled (instance, configuration) EVERY cutoff index k in 1..K+1 is executed (K = polls of the uninterrupted run); each (instance, configuration, k) with k <= K counts as one distinct non-trivial case"},
-    "C06": {"level": "fault_enumeration", "arms": [A("dd-history", 30000, 1200000), A("dd-history-depthfree", 10000, 400000), A("dd-history-longarc", 10000, 400000)],
-            "probes": ["probe:relaxed_inexact", "probe:relaxed_exact", "probe:exact_best_path_claim_with_merges_present", "probe:infeasible_subproblem", "probe:incumbent_at_or_above_optimum", "fault:reuse_after_abort"],
+    "C06": {"level": "fault_enumeration", "arms": [A("dd-history", 30000, 1200000), A("dd-history-narrow", 30000, 1200000), A("dd-history-depthfree", 10000, 400000), A("dd-history-longarc", 10000, 400000)],
+            "probes": ["probe:relaxed_inexact", "probe:relaxed_exact", "probe:merged_state_equal_to_a_kept_node(recycled)", "probe:exact_best_path_claim_with_merges_present", "probe:infeasible_subproblem", "probe:incumbent_at_or_above_optimum", "fault:reuse_after_abort"],
             "rule": RULE_DD, "real": REAL_DD, "stub": STUB_DD},
-    "C07": {"level": "fault_enumeration", "arms": [A("dd-history", 30000, 1200000), A("dd-history-depthfree", 10000, 400000), A("dd-history-longarc", 10000, 400000)],
+    "C07": {"level": "fault_enumeration", "arms": [A("dd-history", 30000, 1200000), A("dd-history-narrow", 30000, 1200000), A("dd-history-depthfree", 10000, 400000), A("dd-history-longarc", 10000, 400000)],
             "probes": ["probe:restricted_inexact(layer truncated)", "compilations_exact_mode", "probe:infeasible_subproblem", "fault:reuse_after_abort"],
             "rule": RULE_DD, "real": REAL_DD, "stub": STUB_DD},
-    "C08": {"level": "fault_enumeration", "arms": [A("dd-history", 30000, 1200000), A("dd-history-depthfree", 10000, 400000), A("dd-history-longarc", 15000, 600000)],
+    "C08": {"level": "fault_enumeration", "arms": [A("dd-history", 30000, 1200000), A("dd-history-narrow", 30000, 1200000), A("dd-history-depthfree", 10000, 400000), A("dd-history-longarc", 15000, 600000)],
             "probes": ["probe:relaxed_inexact", "cutset_nodes_checked", "completions_checked_for_coverage", "probe:frontier_cutset_spanning_>=2_layers", "fault:reuse_after_abort"],
             "rule": RULE_DD, "real": REAL_DD, "stub": STUB_DD},
     "C09": {"level": "exploration", "arms": [A("par-cache", 40000, 2000000), A("seq-cache", 40000, 1500000), A("par-free", 10000, 500000), A("seq-depthfree", 10000, 400000)],
@@ -49,13 +49,13 @@ PROPS = {
     "C10": {"level": "exploration", "arms": [A("dom-history", 40000, 2000000), A("seq-dom", 30000, 1200000), A("par-dom", 30000, 1200000)],
             "probes": ["probe:dominated_verdict", "probe:equal_state_re_presented", "probe:recorded_entry_dropped_by_later_dominating_state", "threshold_soundness_probes", "comparator_pairs_checked", "probe:dominance_pruned_node"],
             "rule": "checker semantics: generated histories of is_dominated_or_insert / clear_layer over small alphabets (<= 2 keys + keyless, <= 3 coordinates in 0..2, values 0..3, 2 depths) compared step by step with a reference Pareto front; threshold soundness re-checked against fresh real checkers; distinct = distinct (use_value, history). Solver level: " + RULE_SOLVER},
-    "C11": {"level": "exploration", "arms": [A("fringe-history", 60000, 3000000), A("seq-depthfree-nodup", 20000, 800000), A("par-free", 10000, 400000)],
+    "C11": {"level": "exploration", "arms": [A("fringe-history", 60000, 3000000), A("seq-depthfree-nodup", 20000, 800000), A("par-free", 10000, 400000), A("seq-sweep-nodup", 2000, 150000)],
             "probes": ["probe:coalesced", "probe:coalesced_with_different_ub", "fringe_clears", "fringe_pops"],
             "rule": "generated push/pop/clear histories (length 4..43, <= 4 states x <= 3 depths x values 0..4 x ubs 0..5) on SimpleFringe and NoDupFringe with MaxUB against a reference multiset keyed by (state, depth), every operation compared, final drain; distinct = distinct (fringe kind, history); plus in-situ reference multiset inside solver runs with depth-free states"},
-    "C12": {"level": "exploration", "arms": [A("dd-history", 20000, 800000), A("dd-history-longarc", 6000, 200000), A("seq-free", 20000, 800000), A("par-free", 15000, 600000), A("par-cutoff", 10000, 400000)],
+    "C12": {"level": "exploration", "arms": [A("dd-history", 20000, 800000), A("dd-history-narrow", 20000, 800000), A("dd-history-longarc", 6000, 200000), A("seq-free", 20000, 800000), A("par-free", 15000, 600000), A("par-cutoff", 10000, 400000)],
             "probes": ["mon_relax_calls", "mon_merge_calls", "mon_tc_calls", "mon_domain_calls", "mon_nextvar_calls", "fault:reuse_after_abort", "fault:cutoff_fired"],
             "rule": "every call of transition_cost / relax / merge / for_each_in_domain / next_variable made by the library during the runs is checked online by recording wrappers, per worker; cases = runs; non-trivial = at least one merge happened / the search branched"},
-    "C13": {"level": "exploration", "arms": [A("dd-history", 20000, 800000), A("seq-free", 20000, 800000), A("par-free", 15000, 600000), A("width-grid", 3000, 30000)],
+    "C13": {"level": "exploration", "arms": [A("dd-history", 20000, 800000), A("dd-history-narrow", 20000, 800000), A("seq-free", 20000, 800000), A("par-free", 15000, 600000), A("width-grid", 3000, 30000)],
             "probes": ["mon_layers_checked", "mon_layers_at_width"],
             "rule": "number of for_each_in_domain calls between two next_variable calls on one worker, compared with the width in force, for every bounded layer of every restricted / relaxed compilation of all-relevant models; the combinator clause (Times, DivBy never yield 0) is a pure function evaluated on a grid inside the same check and is not a simulation result"},
     "C14": {"level": "exploration", "arms": [A("seq-primal", 40000, 1500000), A("par-primal", 40000, 1500000)],
@@ -67,7 +67,7 @@ PROPS = {
     "C18": {"level": "exploration", "arms": [A("store-history", 60000, 3000000), A("dom-history", 30000, 1200000)],
             "probes": ["probe:get_hit", "cache_clear_layers", "cache_clears", "probe:dominated_verdict"],
             "rule": "sequential specification: generated histories of update/get/clear_layer/clear/must_explore (<= 3 states x 4 depths x values -2..3 x explored) against a BTreeMap reference, and the dominance histories of C10; distinct = distinct history"},
-    "C19": {"level": "fault_enumeration", "arms": [A("seq-sweep", 12000, 500000)],
+    "C19": {"level": "fault_enumeration", "arms": [A("seq-sweep", 12000, 500000), A("seq-sweep-nodup", 4000, 200000)],
             "probes": ["probe:ub_strictly_decreased_between_consecutive_k", "probe:lb_strictly_increased_between_consecutive_k", "probe:nodup_coalesced_diff_ub", "sweep_executions"],
             "rule": "for each sampled (instance, configuration) the uninterrupted run gives K polls, then EVERY cutoff index k in 1..K+1 is executed and consecutive k are compared; a case = (instance, configuration, k); non-trivial = k <= K (the cutoff really fires); distinct by hash of (tables, configuration, k)",
             "extra_coverage": {"exhaustive_over": "the cutoff index k, per sampled instance (instances themselves are sampled)"}},
